@@ -101,6 +101,14 @@ func C15(e *core.Env) int {
 				s.conflict = true
 			}
 		}
+		if i == 8 || i == 13 || (i > 20 && i%50 == 3) {
+			// fixed shape for the CLI-level output:package PATH:NAME below: every converter overrides it with a
+			// path-only line and writes where no package exists yet (the clause must not keep the CLI name)
+			for _, c := range s.convs {
+				c.pkgForm, c.existing = "path", ""
+			}
+			s.conflict = false
+		}
 		if i%7 == 5 {
 			// a CLI-level output:file applies to every converter relative to its own declaring file; the packages
 			// already at those locations have names that differ from their directory
